@@ -239,6 +239,29 @@ def string_to_z3_literal(s: str) -> str:
     return s.replace("\\", "\\u{5c}")
 
 
+def z3_string_to_python(s: str) -> str:
+    """
+    Decode the text Z3 prints for a string value (z3's SeqRef.as_string) into the characters the value holds.
+
+    Z3 prints NUL, every code point above 0xFF and every backslash that is followed by 'u' as \\u{h..h} (hexadecimal code
+    point); all other characters are printed as themselves.
+    """
+    out = []
+    i, n = 0, len(s)
+    while i < n:
+        if s.startswith("\\u{", i):
+            j = i + 3
+            while j < n and s[j] in "0123456789abcdefABCDEF":
+                j += 1
+            if i + 3 < j < n and s[j] == "}" and int(s[i + 3 : j], 16) <= 0x10FFFF:
+                out.append(chr(int(s[i + 3 : j], 16)))
+                i = j + 1
+                continue
+        out.append(s[i])
+        i += 1
+    return "".join(out)
+
+
 #
 # Some global variables
 #
@@ -599,7 +622,7 @@ class BackendZ3(Backend):
         if op_name.startswith("RM_"):
             return RM(op_name)
         if op_name == "INTERNAL":
-            return claripy.StringV(z3.SeqRef(ast).as_string())
+            return claripy.StringV(z3_string_to_python(z3.SeqRef(ast).as_string()))
         if op_name == "BitVecVal":
             bv_size = z3.Z3_get_bv_sort_size(ctx, z3_sort)
             if z3.Z3_get_numeral_uint64(ctx, ast, self._c_uint64_p):
@@ -756,7 +779,7 @@ class BackendZ3(Backend):
         if op_name == "INTERNAL":
             seq = z3.SeqRef(ast)
             if seq.is_string():
-                return seq.as_string()
+                return z3_string_to_python(seq.as_string())
         raise BackendError("Unable to abstract Z3 object to primitive")
 
     def _abstract_bv_val(self, ctx, ast):
